@@ -15,15 +15,18 @@ const (
 	exclusiveLock = 2 //互斥的情况
 )
 
-type refCounter struct {
-	ctMap map[string]int
-	mu    sync.Mutex
+// lockEntry is the state of one locked key: its mode and, for a shared lock, the number of holders.
+// Mode and count form one unit guarded by SpinLock.mu (kept apart, a reader could join an entry
+// whose last holder was just about to delete it, and a writer got in beside that reader).
+type lockEntry struct {
+	lockType int
+	holders  int
 }
 
 //SpinLock is a collections of small locks on special keys
 type SpinLock struct {
-	m          *sync.Map
-	refCounter *refCounter
+	mu sync.Mutex
+	m  map[string]*lockEntry
 }
 
 // LockKey is a lock item with lock type and key
@@ -42,22 +45,9 @@ func (lk *LockKey) String() string {
 	return lk.key
 }
 
-func (rc *refCounter) Add(key string) {
-	rc.mu.Lock()
-	defer rc.mu.Unlock()
-	rc.ctMap[key]++
-}
-
-func (rc *refCounter) Release(key string) int {
-	rc.mu.Lock()
-	defer rc.mu.Unlock()
-	rc.ctMap[key]--
-	return rc.ctMap[key]
-}
-
 // NewSpinLock returns a new spinlock instance
 func NewSpinLock() *SpinLock {
-	return &SpinLock{m: &sync.Map{}, refCounter: &refCounter{ctMap: map[string]int{}}}
+	return &SpinLock{m: map[string]*lockEntry{}}
 }
 
 //ExtractLockKeys extract lock items from a transaction
@@ -105,8 +95,40 @@ func (sp *SpinLock) ExtractLockKeys(tx *pb.Transaction) []*LockKey {
 
 //IsLocked returns whether a key is locked
 func (sp *SpinLock) IsLocked(key string) bool {
-	_, locked := sp.m.Load(key)
+	sp.mu.Lock()
+	defer sp.mu.Unlock()
+	_, locked := sp.m[key]
 	return locked
+}
+
+// tryLockKey takes one key: a free key in any mode, a shared key in shared mode
+func (sp *SpinLock) tryLockKey(k *LockKey) bool {
+	sp.mu.Lock()
+	defer sp.mu.Unlock()
+	entry, occupied := sp.m[k.key]
+	if !occupied {
+		sp.m[k.key] = &lockEntry{lockType: k.lockType, holders: 1}
+		return true
+	}
+	if entry.lockType == sharedLock && k.lockType == sharedLock { //读读共享
+		entry.holders++
+		return true
+	}
+	return false //读写冲突
+}
+
+// unlockKey gives one key back; the entry goes away with its last holder
+func (sp *SpinLock) unlockKey(k *LockKey) {
+	sp.mu.Lock()
+	defer sp.mu.Unlock()
+	entry, occupied := sp.m[k.key]
+	if !occupied {
+		return
+	}
+	entry.holders--
+	if entry.holders <= 0 {
+		delete(sp.m, k.key)
+	}
 }
 
 //TryLock try to lock some keys
@@ -114,21 +136,10 @@ func (sp *SpinLock) TryLock(lockKeys []*LockKey) ([]*LockKey, bool) {
 	succLocked := []*LockKey{}
 	for _, k := range lockKeys {
 		verifhook.Yield("trylock.key")
-		if lkType, occupiedByOthers := sp.m.LoadOrStore(k.key, k.lockType); occupiedByOthers {
-			if lkType == sharedLock && k.lockType == sharedLock { //读读共享
-				verifhook.Yield("trylock.shared.beforeAdd")
-				sp.refCounter.Add(k.key)
-				succLocked = append(succLocked, k)
-				continue
-			} else {
-				return succLocked, false //读写冲突
-			}
+		if !sp.tryLockKey(k) {
+			return succLocked, false
 		}
-		if k.lockType == sharedLock {
-			verifhook.Yield("trylock.first.beforeAdd")
-			sp.refCounter.Add(k.key)
-		}
-		succLocked = append(succLocked, k) //第一个抢到
+		succLocked = append(succLocked, k)
 	}
 	return succLocked, true
 }
@@ -137,16 +148,7 @@ func (sp *SpinLock) TryLock(lockKeys []*LockKey) ([]*LockKey, bool) {
 func (sp *SpinLock) Unlock(lockKeys []*LockKey) {
 	N := len(lockKeys)
 	for i := N - 1; i >= 0; i-- {
-		lkType := lockKeys[i].lockType
-		k := lockKeys[i].key
 		verifhook.Yield("unlock.key")
-		if lkType == exclusiveLock {
-			sp.m.Delete(k)
-		} else if lkType == sharedLock { //共享锁要考虑引用计数
-			if sp.refCounter.Release(k) == 0 {
-				verifhook.Yield("unlock.shared.beforeDelete")
-				sp.m.Delete(lockKeys[i].key)
-			}
-		}
+		sp.unlockKey(lockKeys[i])
 	}
 }
